@@ -227,10 +227,12 @@ def coq_makefile():
 
 def coq_build(targets, timeout=1500):
     coq_makefile()
-    lock = os.path.join(CACHE, "coq.lock")
     os.makedirs(CACHE, exist_ok=True)
-    # serialise makes (several checks may run at once and share .vo files)
-    cmd = "flock %s timeout %d make -f Makefile.coq -j16 %s" % (lock, timeout, " ".join(targets))
+    # serialise makes per property directory (several checks / builders may run at once; each
+    # works in its own directory, Common/ is built first and rarely changes)
+    dirs = sorted({t.split("/")[0] for t in targets if "/" in t and not t.startswith("Common/")}) or ["Common"]
+    lock = os.path.join(CACHE, "coq-%s.lock" % "-".join(dirs))
+    cmd = "ulimit -v 16000000; flock %s timeout %d make -f Makefile.coq -j16 %s" % (lock, timeout, " ".join(targets))
     rc, out = sh(cmd, cwd=COQ, timeout=timeout + 600)
     return rc == 0, out
 
@@ -373,10 +375,15 @@ def model_output(pid, coq_case_term, exec_mod="Exec"):
 
 # ------------------------------------------------------------------------------------ known findings
 def load_known():
-    p = os.path.join(VERIF, "known_findings.json")
-    if not os.path.exists(p):
-        return []
-    return json.load(open(p))["findings"]
+    """known findings: the per-property fragments known/Cxx.json (from which tools/genmanifest.py
+    generates the single committed known_findings.json); read-only at run time"""
+    out = []
+    kd = os.path.join(VERIF, "known")
+    if os.path.isdir(kd):
+        for f in sorted(os.listdir(kd)):
+            if f.endswith(".json"):
+                out += json.load(open(os.path.join(kd, f)))["findings"]
+    return out
 
 
 # ---------------------------------------------------------------------------------------- the Prop
